@@ -28,3 +28,46 @@ package typesystem
 //@   modifies nothing
 //@   ensures @defined relationDefined(t, objectType, relation) ==> err == nil && res == restrictionsOf(t, objectType, relation)
 //@   ensures @undefined !relationDefined(t, objectType, relation) ==> err != nil && res == nil
+
+// ------------------------------------------------------------------ C16 / C17: model resolution is scoped by store and by the resolved model id
+// The singleflight keys that collapse concurrent lookups name the store (and, for a read by id, the model), so a lookup
+// for one store can never be answered by a concurrent lookup for another; the typesystem cache key is ("TS", store,
+// resolved model id); a request without a model id resolves to the store's latest model id; what is cached and
+// returned on a miss is the validated typesystem of exactly the model looked up.
+//@ func MemoizedTypesystemResolverFunc$1(ctx, storeID, modelID) (ts, err)
+//@   property C16 C17
+//@   option nosafety
+//@   option defer_neutral
+//@   ensures @latestWhenOmitted err == nil && modelID == "" ==> latestCalled
+//@   ensures @missValidates err == nil && !served ==> validated && ts == validatedTS && cachedTS == validatedTS
+//@   monitor scoped
+//@     ghost latestCalled = false
+//@     ghost nEnc int = 0
+//@     ghost encOK = true
+//@     ghost lookedUp iface = nil
+//@     ghost served = false
+//@     ghost validated = false
+//@     ghost validatedTS *typesystem.TypeSystem = nil
+//@     ghost cachedTS *typesystem.TypeSystem = nil
+//@     before call (*singleflight.Group).Do args _, k, f : assert (closureOf(f, "MemoizedTypesystemResolverFunc$1$2") && hasSuffix(k, ":" + deref(addrOf(storeID))) && closureBinds(f, 2, addrOf(storeID))) || (closureOf(f, "MemoizedTypesystemResolverFunc$1$3") && hasSuffix(k, ":" + deref(addrOf(storeID)) + "/" + deref(addrOf(modelID))) && closureBinds(f, 2, addrOf(storeID)) && closureBinds(f, 3, addrOf(modelID)))
+//@     after call (*singleflight.Group).Do args _, k, f returning v, e, sh : lookedUp = v ; latestCalled = latestCalled || closureOf(f, "MemoizedTypesystemResolverFunc$1$2")
+//@     before call (*keys.Builder).EncodeString args _, s : assert (nEnc == 0 ==> s == "TS") && (nEnc == 1 ==> s == deref(addrOf(storeID))) && (nEnc == 2 ==> (modelID != "" ==> s == modelID) && (modelID == "" ==> typeIs(lookedUp, "*openfgav1.AuthorizationModel") && s == as(lookedUp, "*openfgav1.AuthorizationModel").GetId())) && nEnc <= 2
+//@     after call (*keys.Builder).EncodeString args _, s : nEnc = nEnc + 1
+//@     before call (*keys.Builder).Key : assert nEnc == 3
+//@     after call (storage.InMemoryLRUCache*).Get returning it : served = it != nil
+//@     before call typesystem.NewAndValidate args _, m : assert typeIs(lookedUp, "*openfgav1.AuthorizationModel") && m == as(lookedUp, "*openfgav1.AuthorizationModel")
+//@     after call typesystem.NewAndValidate returning t, e : validated = e == nil ; validatedTS = t
+//@     after call (storage.InMemoryLRUCache*).Set args _, k, v, ttl : cachedTS = v
+
+// the lookups themselves ask the datastore for exactly this store (and model)
+//@ func MemoizedTypesystemResolverFunc$1$2() (v, err)
+//@   property C16 C17
+//@   option nosafety
+//@   monitor scoped
+//@     before call storage.AuthorizationModelReadBackend.FindLatestAuthorizationModel args _, _, st : assert st == deref(storeID)
+
+//@ func MemoizedTypesystemResolverFunc$1$3() (v, err)
+//@   property C16 C17
+//@   option nosafety
+//@   monitor scoped
+//@     before call storage.AuthorizationModelReadBackend.ReadAuthorizationModel args _, _, st, m : assert st == deref(storeID) && m == deref(modelID)
